@@ -240,6 +240,16 @@ Proof.
   exists e. split; [reflexivity|]. repeat (split; [assumption|]). reflexivity.
 Qed.
 
+Lemma step_LearnCommit w f l c w' : step w (LearnCommit f l c) = Some w' ->
+  let s := nodes w f in
+  let sl := nodes w l in
+  (nelect sl = true \/ nst sl = Leader) /\ nterm sl = nterm s /\ c <= ncommit sl /\ c <= length (nlog s) /\
+  w' = set_node w f (mkN (nterm s) (nst s) (nlog s) (nelect s) (nehead s) (nrf s) (Nat.max (ncommit s) c) (nacked s)).
+Proof.
+  unfold step; cbv beta iota zeta. intros H. gd H. inversion H; subst; clear H. split_guards.
+  apply leading_b in H. apply Nat.eqb_eq in H2. apply Nat.leb_le in H1. apply Nat.leb_le in H0. auto.
+Qed.
+
 Lemma step_Crash w n w' : step w (Crash n) = Some w' ->
   let s := nodes w n in
   w' = set_node w n (mkN (nterm s) (if nterm s =? 0 then NotMember else Fenced) (nlog s) false 0 0 (ncommit s) []).
@@ -253,16 +263,16 @@ Lemma step_Attach w l f flog w' : step w (Attach l f flog) = Some w' ->
   (nelect s = true \/ nst s = Leader) /\ f <> l /\ In f (ens w) /\ In (f, t, flog) (resps w) /\
   is_attached f (nacked s) = false /\ S (length (nacked s)) <= nrf s - 1 /\
   ((exists start, attach_decide (nlog s) lh (lhead flog) = NoTruncate start /\
-      w' = mkW (upd (nodes w) l (mkN t (nst s) (nlog s) (nelect s) (nehead s) (nrf s) (ncommit s) ((f, start) :: nacked s)))
+      w' = mkW (upd (nodes w) l (mkN t (nst s) (nlog s) (nelect s) (nehead s) (nrf s) (attach_commit s ((f, start) :: nacked s)) ((f, start) :: nacked s)))
                (cterm w) (ens w) (removed w) (resps w) (elected w) (elog w) (tlog w)
                (appends w) (acks w) (cacked w) (cq w) ((t, f) :: att w))
    \/
    (exists tk k, attach_decide (nlog s) lh (lhead flog) = TruncateTo tk k /\
       let sf := nodes w f in
       nterm sf = t /\ nst sf = Fenced /\ nelect sf = false /\
-      let newlog := truncate_to (nlog sf) tk k in
+      exists newlog, attach_loop (S (length (nlog sf))) (nlog s) lh (truncate_to (nlog sf) tk k) = Some newlog /\
       w' = mkW (upd (upd (nodes w) f (mkN t Follower newlog false 0 0 (ncommit sf) []))
-                    l (mkN t (nst s) (nlog s) (nelect s) (nehead s) (nrf s) (ncommit s) ((f, length newlog) :: nacked s)))
+                    l (mkN t (nst s) (nlog s) (nelect s) (nehead s) (nrf s) (attach_commit s ((f, length newlog) :: nacked s)) ((f, length newlog) :: nacked s)))
                (cterm w) (ens w) (removed w) (resps w) (elected w) (elog w) (tlog w)
                (appends w) (acks w) (cacked w) (cq w) ((t, f) :: att w))).
 Proof.
@@ -272,6 +282,9 @@ Proof.
   repeat (split; [assumption|]).
   destruct (attach_decide _ _ _) as [start|tk k|] eqn:Hd; [| |discriminate].
   - left. exists start. inversion H; subst. auto.
-  - right. exists tk, k. gd H. split_guards. inversion H; subst.
-    apply Nat.eqb_eq in H6. apply status_eqb_eq in H8. auto.
+  - right. exists tk, k. gd H. split_guards.
+    destruct (attach_loop _ _ _ _) as [newlog|] eqn:Hloop; [|discriminate].
+    inversion H; subst.
+    apply Nat.eqb_eq in H6. apply status_eqb_eq in H8.
+    repeat (split; [auto|]). exists newlog. auto.
 Qed.
